@@ -225,6 +225,13 @@ def run_func(ctx, case):
         out3 = np.array(G.mk_pot(spec).calculate(np.array(r)), dtype=float)
         if not np.array_equal(out, out3, equal_nan=True):
             ctx.violation('potential:not-repeatable', '%s: identically constructed object differs' % case['pot'])
+        # an array returned earlier survives later calls on the same object
+        raw = U.calculate(np.array(r))
+        keep = np.array(raw, copy=True)
+        U.calculate(np.array(r[::-1]))
+        U.calculate(np.array(r) * 1.5)
+        if not np.array_equal(np.asarray(raw), keep, equal_nan=True):
+            ctx.violation('potential:earlier-result-overwritten', '%s: an array returned by calculate changed after later calls' % case['pot'])
         # the same object re-used after sigma is changed (as createPRISM does on its private copy)
         U2 = G.mk_pot(spec)
         U2.calculate(np.array(r))
